@@ -88,6 +88,9 @@ def leaf_variants(thorough: bool) -> List[Tuple[str, dict]]:
         V.append((f"sub-Zeta:{name}", M.spec("Tlm", sub={"Zeta": sv})))
         if thorough or name in ("open", "short", "[RC]", "[Tlm]", "[(RC)(RC)]"):
             V.append((f"sub-X_1:{name}", M.spec("Tlm", sub={"X_1": sv, "Z_A": sub_variants()["(RC)"]})))
+    # a labelled container whose (last) sub-circuit can be written as a bare list: with the parameters omitted the list is followed by ':label'
+    V.append(("sub-labelled-Zeta:[RC]", M.spec("Tlm", label="pore", sub={"Zeta": sub_variants()["[RC]"]})))
+    V.append(("sub-labelled-X_1:[R(RC)]", M.spec("Tlm", label="p2", sub={"X_1": sub_variants()["[R(RC)]"]})))
     V.append(("sub-all", M.spec("Tlm", {"L": [0.5, 1e-24, inf, False]}, label="tl",
                                  sub={"X_1": sub_variants()["[RC]"], "X_2": sub_variants()["[R]"], "Z_A": "short",
                                       "Z_B": sub_variants()["(RC)"], "Zeta": sub_variants()["[R(RC)]"]})))
